@@ -175,6 +175,25 @@ fn definite_comparison(
         return false;
     }
     let effective_op = if flipped { flip_op(op) } else { *op };
+    // Integer statistics against an integer literal are compared exactly:
+    // `as f64` rounds above 2^53, and a rounded bound can "prove" a row
+    // group whose last row fails the predicate.
+    let int_bounds: Option<(i64, i64)> = match stats {
+        ParquetStatistics::Int64(s) => s.min_opt().zip(s.max_opt()).map(|(a, b)| (*a, *b)),
+        ParquetStatistics::Int32(s) => s
+            .min_opt()
+            .zip(s.max_opt())
+            .map(|(a, b)| (*a as i64, *b as i64)),
+        _ => None,
+    };
+    let int_val: Option<i64> = match literal {
+        ScalarValue::Int64(v) | ScalarValue::Timestamp(v) => Some(*v),
+        ScalarValue::Int32(v) | ScalarValue::Date32(v) => Some(*v as i64),
+        _ => None,
+    };
+    if let (Some((min, max)), Some(val)) = (int_bounds, int_val) {
+        return definite_range(effective_op, val, min, max);
+    }
     let (min, max): (f64, f64) = match stats {
         ParquetStatistics::Int64(s) => match (s.min_opt(), s.max_opt()) {
             (Some(a), Some(b)) => (*a as f64, *b as f64),
@@ -198,7 +217,12 @@ fn definite_comparison(
         ScalarValue::Timestamp(v) => *v as f64,
         _ => return false,
     };
-    match effective_op {
+    definite_range(effective_op, val, min, max)
+}
+
+/// Does `x op val` hold for EVERY x in [min, max]?
+fn definite_range<T: PartialOrd>(op: BinaryOp, val: T, min: T, max: T) -> bool {
+    match op {
         BinaryOp::Lt => max < val,
         BinaryOp::LtEq => max <= val,
         BinaryOp::Gt => min > val,
@@ -300,14 +324,10 @@ fn check_i32_stats(stats: &ParquetStatistics, op: BinaryOp, val: i32) -> bool {
             let max = *s.max_opt().unwrap();
             eval_range_i32(op, val, min, max)
         }
-        ParquetStatistics::Int64(s) => {
-            if s.min_opt().is_none() || s.max_opt().is_none() {
-                return true;
-            }
-            let min = *s.min_opt().unwrap() as i32;
-            let max = *s.max_opt().unwrap() as i32;
-            eval_range_i32(op, val, min, max)
-        }
+        // Int32/Date32 literal vs Int64 statistics: widen the literal.
+        // Narrowing the statistics wraps outside the i32 range and prunes
+        // row groups that can match.
+        ParquetStatistics::Int64(_) => check_i64_stats(stats, op, val as i64),
         _ => true,
     }
 }
